@@ -322,7 +322,11 @@ func (x *Exec) execSels(node *model.Node, static string, sels []model.Sel, out m
 			}
 			f := x.D.Frag(t.Name)
 			if f != nil && x.applies(f.Cond, concrete, static) {
-				x.execSels(node, static, f.Sels, out, path)
+				fp := path
+				if x.Fl.SpreadMarks {
+					fp = append(append([]interface{}{}, path...), t)
+				}
+				x.execSels(node, static, f.Sels, out, fp)
 			}
 		}
 	}
